@@ -641,9 +641,16 @@ func (w *world) monitors(hist []string, from int, pre model.ShipMessageExchangeS
 	}
 	// C06: exactly once, in arrival order, only after completion
 	var got []string
-	for _, e := range evs {
+	completeAt := -1
+	for i, e := range evs {
+		if e.Kind == "state" && model.ShipMessageExchangeState(e.N) == model.SmeStateComplete && completeAt < 0 {
+			completeAt = i
+		}
 		if e.Kind == "payload" {
 			got = append(got, e.Arg)
+			if completeAt < 0 && i >= from {
+				simrt.Fail("C06|delivered-before-completion", "a SPINE payload was handed to the application before the handshake was reported complete (event %s)", lastEv)
+			}
 		}
 	}
 	if setupAt >= 0 && !w.busy && len(w.inbox) == 0 {
